@@ -14,7 +14,7 @@ Live(t, q) ==
   ELSE t.wpc[q[2]] \notin {"done", "absent"}
 
 GenInit ==
-  /\ \E t \in Threads, n \in NOps, b \in Buffers, q \in QCaps : st = Settle(InitState(t, n, b, q))
+  /\ \E t \in Threads, n \in NOps, b \in Buffers, q \in QCaps : \E bad \in PanicSets(t, n) : st = Settle(InitState(t, n, b, q, bad))
   /\ last = <<"init">> /\ sched = <<>>
 
 GenNext ==
@@ -30,7 +30,7 @@ GenSpec == GenInit /\ [][GenNext]_<<st, last, sched>>
 
 EmitSchedule ==
   Terminated(st) =>
-    Serialize(ToJson([t |-> st.t, n |-> st.n, b |-> st.b, q |-> st.q, got |-> st.got, sched |-> sched]) \o "\n",
+    Serialize(ToJson([t |-> st.t, n |-> st.n, b |-> st.b, q |-> st.q, bad |-> st.bad, got |-> st.got, sched |-> sched]) \o "\n",
               IOEnv.OUT,
               [format |-> "TXT", charset |-> "UTF-8",
                openOptions |-> <<"WRITE", "CREATE", "APPEND">>]).exitValue = 0
